@@ -66,8 +66,11 @@ def run(tier, seed):
         chk.violation("spec:" + str(res.violation), dict(tlc=res.raw[-4000:]))
         return chk.finish()
     behs = res.exports
-    if tier == "quick" and len(behs) > 2500:
-        behs = rng.sample(behs, 2500)
+    # TLC checked every behaviour; a seeded sample is replayed into the real fit()
+    cap = 2500 if tier == "quick" else 60000
+    chk.extra["terminal_behaviours_checked_by_tlc"] = len(behs)
+    if len(behs) > cap:
+        behs = rng.sample(behs, cap)
     conts = ["tensor", "numpy", "list"]
     tc.replay_behaviours(chk, behs, seed, nontrivial=lambda b: sum(1 for e in b["hist"] if e["k"] == "CG") >= 2,
                          opts=lambda n, b: dict(container=conts[n % 3], time_flag=False))
